@@ -14,7 +14,8 @@ from scipy.special import gamma, kv
 from harness import core
 
 # consecutive entries 1-2 share geometry and L0 but not r0; entry 3 has a stencil longer than the outer scale
-PARAMS = [(0.5, 0.2, 20.0), (0.5, 0.05, 20.0), (0.5, 0.2, 3.0), (0.1, 0.15, 50.0), (0.05, 0.1, 10.0), (0.005, 0.1, 200.0), (0.02, 0.15, 1000.0)]   # (pixel scale, r0, L0)
+PARAMS = [(0.5, 0.2, 20.0), (0.5, 0.05, 20.0), (0.5, 0.2, 3.0), (0.1, 0.15, 50.0), (0.05, 0.1, 10.0), (0.005, 0.1, 200.0), (0.02, 0.15, 1000.0),
+          (0.5, 5.0e4, 20.0), (0.01, 1.0e4, 10.0)]   # (pixel scale, r0, L0); the last two: very weak turbulence (pixel/r0 1e-5, 1e-6)
 
 
 class ScriptedGenerator(np.random.Generator):
@@ -29,6 +30,11 @@ class ScriptedGenerator(np.random.Generator):
             v = np.asarray(self.script.pop(0), float)
             return loc + scale * v
         return super().normal(loc, scale, size)
+
+
+class NotScriptable(Exception):
+    """add_row did not draw its innovation through Generator.normal during the call (e.g. deviates drawn ahead in blocks): the
+    scripted probes cannot measure the recursion - a limit of this harness, never a verdict about the code"""
 
 
 def cov_vk(r, r0, L0):
@@ -53,12 +59,52 @@ def probe(obj, gen, S, b):
     obj._scrn = np.array(S, dtype=float, copy=True)
     gen.script.append(b)
     out = obj.add_row()
+    if gen.script:
+        gen.script.clear()
+        raise NotScriptable()
     row = np.asarray(obj._scrn)[0].copy()
     return row, np.asarray(out)
 
 
 def check_config(ips, c, params, rng):
     """returns (violations, info) ; info has residuals for the evidence file"""
+    try:
+        return _check_config(ips, c, params, rng)
+    except NotScriptable:
+        return _check_attributes(ips, c, params, rng)
+
+
+def _check_attributes(ips, c, params, rng):
+    """fallback when the innovation cannot be scripted: the two identities on the matrices the object itself holds"""
+    ps, r0, L0 = params
+    try:
+        obj = build(ips, c, params, ScriptedGenerator(int(rng.integers(0, 2 ** 31 - 1))))
+        A, Bm = np.asarray(obj.A_mat, float), np.asarray(obj.B_mat, float)
+    except Exception as ex:  # noqa
+        return None, dict(unscriptable="add_row does not draw its innovation inside the call; no A_mat/B_mat to fall back on: " + repr(ex)[:60])
+    nz = len(c["Z"])
+    C = cov_vk(np.sqrt(np.array(c["Q"], float)) * ps, r0, L0)
+    Czz, Cxx, Cxz = C[:nz, :nz], C[nz:, nz:], C[nz:, :nz]
+    if A.shape != Cxz.shape or Bm.shape != Cxx.shape:
+        return None, dict(unscriptable="A_mat/B_mat have unexpected shapes")
+    cmax = np.abs(C).max()
+    r1 = np.abs(A.dot(Czz) - Cxz).max() / cmax
+    r2 = np.abs(A.dot(Czz).dot(A.T) + Bm.dot(Bm.T) - Cxx).max() / cmax
+    innov = np.abs(Cxx - Cxz.dot(np.linalg.solve(Czz, Cxz.T))).max() / cmax
+    normA = float(np.abs(A).sum(1).max())
+    tolA, tolB = 5e-7 * (1 + normA), 5e-7 * (1 + normA) + 1e-3 * innov
+    info = dict(res_A=float(r1), res_B=float(r2), innovation=float(innov), normA=normA, ratio_A=float(r1 / tolA), ratio_B=float(r2 / tolB),
+                measured_via="A_mat/B_mat attributes (innovation not scriptable)")
+    bad = []
+    tag = c["variant"]
+    if r1 > tolA:
+        bad.append(("%s:A-identity" % tag, dict(residual_rel=float(r1), tolerance=tolA, params=params, via="attributes")))
+    if r2 > tolB:
+        bad.append(("%s:B-identity" % tag, dict(residual_rel=float(r2), tolerance=tolB, innovation_rel=float(innov), params=params, via="attributes")))
+    return bad, info
+
+
+def _check_config(ips, c, params, rng):
     bad, info = [], {}
     ps, r0, L0 = params
     gen = ScriptedGenerator(int(rng.integers(0, 2 ** 31 - 1)))
@@ -179,6 +225,8 @@ def vk_stability(ips, n, ncol, params, seed=5):
         obj._scrn = S.copy()
         gen.script.append(np.zeros(n))
         obj.add_row()
+        if gen.script:
+            return None, None            # not scriptable (see NotScriptable): the caller lists it as unrunnable
         T[:, s] = np.asarray(obj._scrn)[:ncol].ravel()
     for k in range(n):
         e = np.zeros(n)
@@ -230,10 +278,13 @@ def run(run):
             for key, detail in bad:
                 run.violation(key, detail, dict(lite, params=list(params), Q=c["Q"]))
     if built == 0:
-        raise core.MachineryError("no configuration could be constructed")
+        raise core.MachineryError("no configuration could be constructed and probed")
     stab = []
     for n, ncol in ((4, 2), (6, 2), (8, 2), (5, 3)) if quick else ((4, 2), (6, 2), (8, 2), (5, 3), (12, 2), (16, 2), (9, 4)):
         rho, res = vk_stability(ips, n, ncol, PARAMS[0])
+        if rho is None:
+            run.unrunnable.append(dict(stability=[n, ncol], why="add_row does not draw its innovation inside the call"))
+            continue
         stab.append(dict(n=n, ncol=ncol, spectral_radius=rho, stationarity_residual=res))
         if not (rho < 1 - 1e-9) or res > 1e-4:
             run.violation("vk:recursion-not-stable-at-von-karman-covariance", stab[-1], dict(kind="stability", n=n, ncol=ncol))
@@ -252,7 +303,7 @@ def replay(run, case):
     warnings.simplefilter("ignore")
     if case.get("kind") == "stability":
         rho, res = vk_stability(ips, case["n"], case["ncol"], PARAMS[0])
-        if not (rho < 1 - 1e-9) or res > 1e-4:
+        if rho is not None and (not (rho < 1 - 1e-9) or res > 1e-4):
             run.violation("vk:recursion-not-stable-at-von-karman-covariance", dict(rho=rho, res=res), case)
         return
     rng = np.random.default_rng(run.seed)
